@@ -238,6 +238,9 @@ def main():
         if stake:
             undecided = "function(s) %s left the verifier's subset (auto-demoted): %s" % (
                 ", ".join(stake), "; ".join(s["msg"][:120] for s in res["structural"] if s["fn"] in stake))
+        for adv in pipeline.advisories(res, VERIF):
+            if pid in adv["props"] and not stake:
+                undecided = adv["reason"]
         glob = [s for s in res["structural"] if not s["fn"]]
         if glob:
             undecided = "verifier rejected the generated file outside any function: " + glob[0]["msg"][:300]
